@@ -146,8 +146,11 @@ func (w *World) axiomsFor(terms []*Term) []string {
 			tnames = append(tnames, n)
 		}
 	}
-	for _, c := range tnames {
-		out = append(out, fmt.Sprintf("(assert (not (%s nilU)))", smtName(c)))
+	for _, c := range names {
+		// also for predicates that only occur in contracts: nil has no dynamic type
+		if strings.HasPrefix(c, "hasType$") {
+			out = append(out, fmt.Sprintf("(assert (not (%s nilU)))", smtName(c)))
+		}
 	}
 	for _, c := range tnames {
 		ct := w.typeOfPred[c]
